@@ -172,6 +172,8 @@ def main():
                 break
     for c in idx[:2]:
         ck.sample({"state": c["state"], "ops": c["ops"][:6]})
+    # a write refused by the add hook: searches and gets answer as if it had not been tried
+    refused_hook_phase(ck, lr, ck.rng, 200 if not ck.thorough else 5000)
     lr.finish_cov("histories of AddFact/RemFact/GetFact/SearchFacts over 5 ids (plus generated ids and property facts) on one location, each run under "
                   "IndexedState and LinearState; patterns derived from stored facts (keys dropped, leaves abstracted into variables); values the term index "
                   "skips (numbers, booleans, over-long strings, x! keys, 'rule' values) over-represented; non-trivial = the history contains a search; "
